@@ -61,14 +61,14 @@ SEMANTIC_RULES = {
     "C04": {"R1", "R2", "R3", "R4"},
     "C05": {"R1", "R2", "R3", "R6", "R8"},
     "C06": {"R1", "R2", "R3", "R4", "R5", "R6v", "R8"},
-    "C07": {"R1v", "R2", "R4", "R5v"},
+    "C07": {"R1s", "R1v", "R2", "R4", "R5v"},
     "C08": {"G2", "G6r", "G8", "G9"},
     "C09": {"R4", "R5"},
-    "C10": {"ENTRY", "PRIM", "CLONE", "BACKEND", "FTYPE", "OWN", "IMM", "UPD"},
+    "C10": {"ENTRY", "PRIMv", "CLONEv", "BACKEND", "FTYPE", "OWN", "IMM", "UPD"},
     "C11": {"R1", "R5", "R6", "R7", "R9"},
     "C13": {"UNIQ", "LCA", "SIZED", "CONST", "XMODEL", "CONSTREJ", "DET"},
     "C14": {"R1v", "R2", "R5"},
-    "C16": {"CLONE", "R6", "R7", "R8"},
+    "C16": {"CLONEv", "R6", "R7", "R8"},
     "C17": {"R1", "R2", "R5", "R6"},
     "C18": {"R1", "R2", "R3", "R4", "R5"},
     "C19": {"R1", "R2", "R3", "R3b", "R4", "R8", "R9", "R10", "R11", "A12"},
